@@ -76,6 +76,7 @@ func main() {
 	dumpDir := flag.String("dump", "", "dump smt queries to dir")
 	maxCalls := flag.Int("maxcalls", 200000, "inlined call budget")
 	assumeUnwind := flag.String("assumeunwind", "newShortID=2", "fn=k,...: loops of fn are assumed (not asserted) to exit within k iterations")
+	only := flag.String("only", "", "comma-separated label prefixes: assertions with other labels are not discharged (they belong to another property's check)")
 	stubs := flag.String("stubs", "", "comma-separated fn=harnessFn: replace an ergo function by a harness-level summary (verified separately)")
 	flag.Parse()
 
@@ -155,6 +156,7 @@ func main() {
 			au[p[0]] = n
 		}
 	}
+	onlyPrefixes = *only
 	pool := NewSolverPool(*solver, *workers)
 	var pool2 *SolverPool
 	if *second != "" {
@@ -209,6 +211,7 @@ func runEntry(prog *ssa.Program, epkg *ssa.Package, entry string, cfg Config, po
 	False = TS.intern(&Term{op: "const", sort: SBool, ival: bigZero})
 	outputs = nil
 	upperMemo = map[*Term][2]int{}
+	builderAcc = map[*Object]Value{}
 	nonNegMemo = map[*Term]bool{}
 	pushMemo = map[[3]int]*Term{}
 	parseMemo = map[*Term][2]*Term{}
@@ -294,6 +297,17 @@ func runEntry(prog *ssa.Program, epkg *ssa.Package, entry string, cfg Config, po
 		}
 		if o.Bad.IsFalse() {
 			continue // trivially discharged by simplification
+		}
+		if o.Kind == "assert" && onlyPrefixes != "" {
+			keep := false
+			for _, p := range strings.Split(onlyPrefixes, ",") {
+				if strings.HasPrefix(o.Label, p) {
+					keep = true
+				}
+			}
+			if !keep {
+				continue
+			}
 		}
 		obls = append(obls, o)
 	}
@@ -398,6 +412,25 @@ func discharge(ex *Exec, o *Obligation, pool, pool2 *SolverPool, timeout int, du
 		}
 	}
 	r := pool.Query(script, exprs, timeout)
+	if r.Status == "sat" {
+		// prefer a model that the native replay can stage: features it cannot force (a lock that
+		// is busy only at the second attempt, an unreadable result file, ...) are switched off when
+		// a counterexample without them exists
+		var extra strings.Builder
+		n := 0
+		for _, v := range vars {
+			if v.sort == SBool && preferFalse(v.name) {
+				extra.WriteString("(assert (not " + smtName(v.name) + "))\n")
+				n++
+			}
+		}
+		if n > 0 {
+			r2 := pool.Query(script+extra.String(), exprs, timeout)
+			if r2.Status == "sat" {
+				r = r2
+			}
+		}
+	}
 	or.Status = r.Status
 	or.Time = r.Time
 	or.Err = r.Err
@@ -452,7 +485,15 @@ func discharge(ex *Exec, o *Obligation, pool, pool2 *SolverPool, timeout int, du
 	return or
 }
 
+func preferFalse(name string) bool {
+	if strings.HasPrefix(name, "world.lock.busy!") && name != "world.lock.busy!1" {
+		return true
+	}
+	return name == "world.evidence.bad" || strings.HasPrefix(name, "world.lock.missing!")
+}
+
 var tsMu sync.Mutex
+var onlyPrefixes string
 
 func sanitize(s string) string {
 	var sb strings.Builder
